@@ -68,7 +68,8 @@ package http
 //@   local ctx = UnOp#11 | UnOp#14 | UnOp#17 | UnOp#5 | UnOp#8
 //@   local token = UnOp#2
 //@   props C08 C10(sweep)
-//@   sweep bounds,make
+//@   sweep bounds,make,nilmem
+//@   callassert HandleError#*: @configured !isnil(recv)
 //@   ensures @inval len(token) > 0 ==> invalidated(ctx) == True()
 
 // ---- client side (C05) ---------------------------------------------------------------------------
